@@ -97,6 +97,9 @@ type Ref struct {
 	loading map[string]bool
 	Libs    map[string]map[string]V
 	lastVal V
+	Main *modEnv
+	// TraceWithText: see zn.TraceWithText
+	TraceWithText bool
 	// Open is set when the run depended on something the statement leaves open
 	// (e.g. a callee touching a caller's block-local name: dynamic vs lexical scoping).
 	Open    bool
@@ -112,6 +115,19 @@ type stepLimit struct{}
 
 func NewRef() *Ref {
 	return &Ref{MaxSteps: 200000, MaxDepth: 2000, loaded: map[string]*modEnv{}, loading: map[string]bool{}}
+}
+
+// TopVar returns a variable of the main program's outermost block after (or
+// during) a run.
+func (rf *Ref) TopVar(name string) (V, bool) {
+	if rf.Main == nil || rf.Main.top == nil {
+		return nil, false
+	}
+	b, ok := rf.Main.top.names[name]
+	if !ok {
+		return nil, false
+	}
+	return b.v, true
 }
 
 func (rf *Ref) cur() *frame { return rf.frames[len(rf.frames)-1] }
@@ -222,6 +238,7 @@ func (rf *Ref) RunProgram(p *Program, inputs map[string]V) (res V, err *ZErr, ab
 		}
 	}()
 	mod := &modEnv{name: "主模块", consts: map[string]*binding{}}
+	rf.Main = mod
 	res, err = rf.runModule(mod, p, inputs, true)
 	return
 }
@@ -997,7 +1014,11 @@ func (rf *Ref) callFunc(fn *FV, this V, args []V) (V, *ZErr) {
 	if fn.Builtin == "显示" {
 		var parts []string
 		for _, a := range args {
-			parts = append(parts, Canon(a))
+			if rf.TraceWithText {
+				parts = append(parts, Canon(a)+"⟦"+Display(a)+"⟧")
+			} else {
+				parts = append(parts, Canon(a))
+			}
 		}
 		rf.Trace = append(rf.Trace, strings.Join(parts, " "))
 		return Null{}, nil
